@@ -17,7 +17,7 @@ from tqv.core import SubCheck, Violation, req
 # caller-owned arrays handed to the library must come back unchanged (see tqv/purity.py)
 from tqv.purity import install as _install_purity  # noqa: E402
 
-_install_purity('toqito.perms')
+_install_purity('toqito.perms', twice=True)
 
 PROPERTY = "C01"
 RULE = (
